@@ -30,6 +30,7 @@ impl<'a> Model<'a> {
     ensures r.is_err() ==> *final(self) == *old(self)
 //@end
 //@stub base/src/model.rs Model::get_defined_name_formula
+    ensures self.name_readable(name@, scope) ==> r.is_ok()
 //@end
 //@stub base/src/model.rs Model::set_show_grid_lines
     ensures r.is_err() ==> *final(self) == *old(self)
@@ -41,6 +42,37 @@ impl<'a> Model<'a> {
     ensures r.is_err() ==> *final(self) == *old(self)
 //@end
 //@stub base/src/model.rs Model::evaluate
+//@end
+//@stub base/src/new_empty.rs Model::rename_sheet_by_index
+    ensures r.is_err() ==> *final(self) == *old(self)
+//@end
+//@stub base/src/model.rs Model::new_defined_name
+    ensures r.is_err() ==> *final(self) == *old(self),
+            // ASSUMED (A-created): a name that was just created can be read back
+            r.is_ok() ==> final(self).name_readable(name@, scope)
+//@end
+//@stub base/src/actions.rs Model::insert_rows
+    ensures r.is_err() ==> *final(self) == *old(self)
+//@end
+//@stub base/src/actions.rs Model::insert_columns
+    ensures r.is_err() ==> *final(self) == *old(self)
+//@end
+//@stub base/src/actions.rs Model::move_rows_action
+    ensures r.is_err() ==> *final(self) == *old(self)
+//@end
+//@stub base/src/actions.rs Model::move_columns_action
+    ensures r.is_err() ==> *final(self) == *old(self)
+//@end
+    pub uninterp spec fn name_readable(&self, name: Seq<char>, scope: Option<u32>) -> bool;
+}
+impl Workbook {
+//@stub base/src/workbook.rs Workbook::worksheet
+//@end
+}
+impl Worksheet {
+//@stub base/src/worksheet.rs Worksheet::is_row_hidden
+//@end
+//@stub base/src/worksheet.rs Worksheet::is_column_hidden
 //@end
 }
 
@@ -104,6 +136,69 @@ impl<'a> UserModel<'a> {
         r.is_err() ==> same_state(old(self), final(self)),
         r.is_ok() ==> one_entry(old(self), final(self)),
 //@rewrite `-> Result<(), String>` => `-> (r: Result<(), String>)`
+//@end
+
+//@fn base/src/user_model/common.rs UserModel::set_show_grid_lines
+//@spec
+    ensures r.is_err() ==> same_state(old(self), final(self)), r.is_ok() ==> one_entry(old(self), final(self)),
+//@rewrite `-> Result<(), String> {` => `-> (r: Result<(), String>) {`
+//@end
+//@fn base/src/user_model/common.rs UserModel::set_sheet_color
+//@spec
+    ensures r.is_err() ==> same_state(old(self), final(self)), r.is_ok() ==> one_entry(old(self), final(self)),
+//@rewrite `-> Result<(), String> {` => `-> (r: Result<(), String>) {`
+//@end
+//@fn base/src/user_model/common.rs UserModel::unhide_sheet
+//@spec
+    ensures r.is_err() ==> same_state(old(self), final(self)), r.is_ok() ==> one_entry(old(self), final(self)),
+//@rewrite `-> Result<(), String> {` => `-> (r: Result<(), String>) {`
+//@end
+//@fn base/src/user_model/common.rs UserModel::rename_sheet
+//@spec
+    ensures r.is_err() ==> same_state(old(self), final(self)),
+            r.is_ok() ==> one_entry(old(self), final(self)) || same_state(old(self), final(self)),   // renaming to the same name is a no-op
+//@rewrite `-> Result<(), String> {` => `-> (r: Result<(), String>) {`
+//@end
+//@fn base/src/user_model/common.rs UserModel::new_defined_name
+//@spec
+    ensures r.is_err() ==> same_state(old(self), final(self)), r.is_ok() ==> one_entry(old(self), final(self)),
+//@rewrite `) -> Result<(), String> {` => `) -> (r: Result<(), String>) {`
+//@end
+//@fn base/src/user_model/common.rs UserModel::insert_rows
+//@spec
+    ensures r.is_err() ==> same_state(old(self), final(self)), r.is_ok() ==> one_entry(old(self), final(self)),
+//@rewrite `-> Result<(), String> {` => `-> (r: Result<(), String>) {`
+//@end
+//@fn base/src/user_model/common.rs UserModel::insert_columns
+//@spec
+    ensures r.is_err() ==> same_state(old(self), final(self)), r.is_ok() ==> one_entry(old(self), final(self)),
+//@rewrite `) -> Result<(), String> {` => `) -> (r: Result<(), String>) {`
+//@end
+//@fn base/src/user_model/common.rs UserModel::move_rows_action
+//@attr
+#[verifier::loop_isolation(false)]
+//@spec
+    requires -4194304 <= row <= 4194304, -4194304 <= row_count <= 4194304, -4194304 <= delta <= 4194304
+    ensures r.is_err() ==> same_state(old(self), final(self)),
+            r.is_ok() ==> one_entry(old(self), final(self)) || same_state(old(self), final(self)),
+//@rewrite `) -> Result<(), String> {` => `) -> (r: Result<(), String>) {`
+//@loop 1
+                invariant delta <= new_delta <= delta + (r - (row + row_count)), row + row_count <= r <= row + row_count + delta + 1
+//@loop 2
+                invariant delta - (r - (row + delta)) <= new_delta <= delta, row + delta <= r <= row
+//@end
+//@fn base/src/user_model/common.rs UserModel::move_columns_action
+//@attr
+#[verifier::loop_isolation(false)]
+//@spec
+    requires -4194304 <= column <= 4194304, -4194304 <= column_count <= 4194304, -4194304 <= delta <= 4194304
+    ensures r.is_err() ==> same_state(old(self), final(self)),
+            r.is_ok() ==> one_entry(old(self), final(self)) || same_state(old(self), final(self)),
+//@rewrite `) -> Result<(), String> {` => `) -> (r: Result<(), String>) {`
+//@loop 1
+                invariant delta <= new_delta <= delta + (col - (column + column_count)), column + column_count <= col <= column + column_count + delta + 1
+//@loop 2
+                invariant delta - (col - (column + delta)) <= new_delta <= delta, column + delta <= col <= column
 //@end
 }
 
